@@ -123,13 +123,14 @@ theorem c05_trace_value_any_glom (P : Char → Bool) (v : RV) (hs : strOK (limit
   c05_trace_value_any _ _ _ _ c05_facts_wf P v hs vlen m hm hsuf
 
 /-- a string with both quote characters, the `"` in the middle `repr_str` cuts out (`'aaaa…"…aaaa`;
-    limits 13 instead of 1024, so that 40 characters suffice) -/
+    limits 13, so that 40 characters suffice) -/
 def quoteStr : Str := '\'' :: (List.replicate 20 'a' ++ '"' :: List.replicate 20 'a')
 
 /-- **`strOK` is needed**: `repr_str` takes the quote of the CUT string — which has lost its `"` — so
     its text starts with another quote than Python's repr of the whole string: no common prefix at
-    all.  (glom: a str of more than 1024 characters with `'` in its first / last 510 and `"` only in
-    the middle is shown as `"'aaa…` instead of `'\'aaa…`: cosmetic.) -/
+    all.  (glom before de451ae, limits 1024: a str of more than 1024 characters with `'` in its first /
+    last 510 and `"` only in the middle was shown as `"'aaa…` instead of `'\'aaa…`; with the limits at
+    `sys.maxsize` nothing is cut.) -/
 theorem c05_repr_quote_unstable :
     (limitsOf [("maxlevel", 13), ("maxtuple", 13), ("maxlist", 13), ("maxarray", 13), ("maxdict", 13), ("maxset", 13),
       ("maxfrozenset", 13), ("maxdeque", 13), ("maxstring", 13), ("maxlong", 13), ("maxother", 13)]).allGe (2 * 4 + 5) = true ∧
